@@ -26,11 +26,16 @@ package internal
 
 // ---- C10: the buffer handed to NewCryptoKey is wiped on every return ----
 
+// revoked is read and written with sync/atomic
+//@ volatile (CryptoKey).revoked
+
 //@ func NewCryptoKey
-//@   facet C10
+//@   facet C10, C02
+//@   requires factory != nil
 //@   modifies key[*]
 //@   ensures [C10:source-wiped] forall i int :: 0 <= i && i < len(key) ==> key[i] == 0
 //@   ensures (err == nil) == (result != nil)
+//@   ensures [C02:key-carries-row-stamp] err == nil ==> fresh(result) && result.created == created && result.secret != nil
 
 // ---- Revokable: observers without heap effect ----
 
